@@ -1,6 +1,8 @@
 package rules
 
 import (
+	"fmt"
+	"os"
 	"go/token"
 	"go/types"
 	"strings"
@@ -160,10 +162,22 @@ func resolveLockRoles(c *Ctx) *lockRoles {
 				return
 			}
 			if mc, isMC := call.Call.Args[0].(*ssa.MakeClosure); isMC {
+				// the closure (or the bound-method wrapper of a method value) calls the routine: a locker method, or a
+				// function / method of a helper type of the same package that reaches the locker through its receiver
+				var other *ssa.Function
 				for _, cc := range ir.Calls(mc.Fn.(*ssa.Function)) {
-					if cal := ir.StaticCallee(cc); cal != nil && cal.Signature.Recv() != nil && namedOf(cal.Signature.Recv().Type()) == r.locker {
-						r.renewal = cal
+					cal := ir.StaticCallee(cc)
+					if cal == nil || len(cal.Blocks) == 0 || cal.Pkg != fn.Pkg {
+						continue
 					}
+					if cal.Signature.Recv() != nil && namedOf(cal.Signature.Recv().Type()) == r.locker {
+						r.renewal = cal
+					} else {
+						other = cal
+					}
+				}
+				if r.renewal == nil && other != nil {
+					r.renewal = other
 				}
 			}
 		})
@@ -439,7 +453,7 @@ func (c *Ctx) acquirePath(r *lockRoles, fn *ssa.Function) (bool, string, ssa.Ins
 			}
 			ret := in.(*ssa.Return)
 			if rs := fn.Signature.Results(); rs.Len() > 0 && ir.IsErrorType(rs.At(rs.Len()-1).Type()) {
-				if isNil, known := val.KnownIsNil(ret.Results[rs.Len()-1]); known && !isNil {
+				if isNil, known := val.KnownIsNil(ir.ResultValue(ret, rs.Len()-1)); known && !isNil {
 					return false // a failure exit on this path
 				}
 			}
@@ -455,6 +469,9 @@ func (c *Ctx) acquirePath(r *lockRoles, fn *ssa.Function) (bool, string, ssa.Ins
 		w2, err2 := pq.Find()
 		if err2 == nil && w2 == nil {
 			return true, "", nil
+		}
+		if w2 != nil {
+			return false, w2.String(c.P), w2.End
 		}
 		return false, w.String(c.P), w.End
 	}
@@ -483,7 +500,11 @@ func runC01(c *Ctx) {
 			if !has {
 				continue
 			}
-			if ok, _, _ := c.acquirePath(r, fn); ok {
+			ok, why, _ := c.acquirePath(r, fn)
+			if !ok && os.Getenv("VERIF_DEBUG") != "" {
+				fmt.Fprintf(os.Stderr, "debug: %s is not an acquiring helper: %s\n", ir.FnName(fn), why)
+			}
+			if ok {
 				r.acquiring[fn] = true
 				changed = true
 				c.Role("locker.acquiringHelper", ir.FnName(fn), fn.Pos()) // tolerated, not required: the normal form may inline it
@@ -1013,7 +1034,7 @@ func runC05(c *Ctx) {
 			okVer, okKey := false, false
 			if cell != nil {
 				for _, st := range fieldStores(cell, r.recVersion) {
-					if p, isParam := ir.Resolve(st.Val).(*ssa.Parameter); isParam && p.Parent() == fn {
+					if _, isInput := r.renewalInput(st.Val); isInput {
 						okVer = true
 					}
 				}
@@ -1260,23 +1281,160 @@ func runC05(c *Ctx) {
 	c.inmemBoundedPark(im, "C05.E2")
 }
 
+// verInput names an input of the renewal routine: parameter param, or - when field is set - that field of the struct
+// the parameter (or value receiver) is.
+type verInput struct {
+	param int
+	field *types.Var
+}
+
+// renewalInput: v (inside the renewal routine) is one of the routine's inputs - a parameter, or a field of a struct
+// parameter / receiver (`func (lr leaseRenewal) run()` using lr.ver).
+func (r *lockRoles) renewalInput(v ssa.Value) (verInput, bool) {
+	fn := r.renewal
+	idx := func(p *ssa.Parameter) int {
+		for i, q := range fn.Params {
+			if q == p {
+				return i
+			}
+		}
+		return -1
+	}
+	v = ir.Resolve(v)
+	if p, ok := v.(*ssa.Parameter); ok && p.Parent() == fn {
+		return verInput{param: idx(p)}, idx(p) >= 0
+	}
+	var base ssa.Value
+	var f *types.Var
+	switch x := v.(type) {
+	case *ssa.UnOp:
+		fa, ok := x.X.(*ssa.FieldAddr)
+		if x.Op != token.MUL || !ok {
+			return verInput{}, false
+		}
+		base, f = fa.X, ir.FieldOf(fa)
+	case *ssa.Field:
+		base, f = x.X, ir.FieldOf(x)
+	default:
+		return verInput{}, false
+	}
+	if f == nil {
+		return verInput{}, false
+	}
+	// the struct is the parameter itself (pointer or value), or the local the value parameter is spilled to
+	holder := base
+	if al, ok := base.(*ssa.Alloc); ok && al.Referrers() != nil {
+		var stored []ssa.Value
+		for _, ref := range *al.Referrers() {
+			if st, isSt := ref.(*ssa.Store); isSt && st.Addr == ssa.Value(al) {
+				stored = append(stored, st.Val)
+			}
+		}
+		if len(stored) != 1 {
+			return verInput{}, false
+		}
+		base = stored[0]
+	}
+	if p, ok := ir.Resolve(base).(*ssa.Parameter); ok && p.Parent() == fn && idx(p) >= 0 {
+		// never written in the routine: the field still is what the arming site put there
+		written := false
+		ir.Instrs(fn, func(in ssa.Instruction) {
+			if st, isSt := in.(*ssa.Store); isSt {
+				if fa, isFA := st.Addr.(*ssa.FieldAddr); isFA && ir.FieldOf(fa) == f && (fa.X == holder || fa.X == ssa.Value(p)) {
+					written = true
+				}
+			}
+		})
+		return verInput{param: idx(p), field: f}, !written
+	}
+	return verInput{}, false
+}
+
+// renewalVersionInput: the input of the renewal routine its CAS takes the version from.
+func (r *lockRoles) renewalVersionInput() (verInput, bool) {
+	var res verInput
+	found := false
+	ir.Instrs(r.renewal, func(in ssa.Instruction) {
+		cas := r.storageCall(in, "CasByVersion")
+		if cas == nil {
+			return
+		}
+		if cell := recordArgCell(cas.Call.Args[1]); cell != nil {
+			for _, st := range fieldStores(cell, r.recVersion) {
+				if vi, ok := r.renewalInput(st.Val); ok {
+					res, found = vi, true
+				}
+			}
+		}
+	})
+	return res, found
+}
+
+// armedVersions: timeout.Call(f, d) - the values (in terms of the function that arms) that arrive at the renewal
+// routine's version input when f runs. f is a closure calling the routine, or the routine as a bound method value.
+func (r *lockRoles) armedVersions(tc *ssa.Call) []ssa.Value {
+	vi, ok := r.renewalVersionInput()
+	if !ok {
+		// a routine whose CAS does not use an input (reported by L5): fall back to the first string parameter
+		vi = verInput{param: 1}
+	}
+	mc, isMC := tc.Call.Args[0].(*ssa.MakeClosure)
+	if !isMC {
+		return nil
+	}
+	cl := mc.Fn.(*ssa.Function)
+	var res []ssa.Value
+	for _, cc := range ir.Calls(cl) {
+		call, isCall := cc.(*ssa.Call)
+		if !isCall || ir.StaticCallee(call) != r.renewal || len(call.Call.Args) <= vi.param {
+			continue
+		}
+		arg := call.Call.Args[vi.param]
+		// a captured variable of a bound-method wrapper has no enclosing function to look its binding up in
+		if fv, isFV := arg.(*ssa.FreeVar); isFV && cl.Parent() == nil {
+			for i, f := range cl.FreeVars {
+				if f == fv && i < len(mc.Bindings) {
+					arg = mc.Bindings[i]
+				}
+			}
+		}
+		if vi.field == nil {
+			res = append(res, arg)
+			continue
+		}
+		for _, o := range ir.Origins(arg) {
+			// the struct value loaded from the local it was composed in
+			var cell *ssa.Alloc
+			switch x := o.(type) {
+			case *ssa.UnOp:
+				if x.Op == token.MUL {
+					cell, _ = x.X.(*ssa.Alloc)
+					if fv, isFV := x.X.(*ssa.FreeVar); isFV {
+						cell, _ = ir.BindingOf(fv).(*ssa.Alloc)
+					}
+				}
+			case *ssa.Alloc:
+				cell = x
+			}
+			if cell == nil {
+				continue
+			}
+			for _, st := range fieldStores(cell, vi.field) {
+				res = append(res, st.Val)
+			}
+		}
+	}
+	return res
+}
+
 // armsRenewal: timeout.Call(fn, d) where fn is a closure that calls the renewal routine with the version of
 // create (through the captured variable) and d = lease / k with k >= 2.
 func (r *lockRoles) armsRenewal(tc *ssa.Call, create *ssa.Call) bool {
 	if !r.periodBelowLease(tc.Call.Args[1]) {
 		return false
 	}
-	mc, ok := tc.Call.Args[0].(*ssa.MakeClosure)
-	if !ok {
-		return false
-	}
-	cl := mc.Fn.(*ssa.Function)
-	for _, cc := range ir.Calls(cl) {
-		call, isCall := cc.(*ssa.Call)
-		if !isCall || ir.StaticCallee(call) != r.renewal || len(call.Call.Args) < 2 {
-			continue
-		}
-		for _, o := range ir.Origins(call.Call.Args[1]) {
+	for _, v := range r.armedVersions(tc) {
+		for _, o := range ir.Origins(v) {
 			if ex, isEx := o.(*ssa.Extract); isEx && ex.Tuple == ssa.Value(create) && ex.Index == 0 {
 				return true
 			}
@@ -1290,17 +1448,7 @@ func (r *lockRoles) armsRenewalWithNewVersion(tc *ssa.Call, cas *ssa.Call) bool 
 	if !r.periodBelowLease(tc.Call.Args[1]) {
 		return false
 	}
-	mc, ok := tc.Call.Args[0].(*ssa.MakeClosure)
-	if !ok {
-		return false
-	}
-	cl := mc.Fn.(*ssa.Function)
-	for _, cc := range ir.Calls(cl) {
-		call, isCall := cc.(*ssa.Call)
-		if !isCall || ir.StaticCallee(call) != r.renewal || len(call.Call.Args) < 2 {
-			continue
-		}
-		v := call.Call.Args[1]
+	for _, v := range r.armedVersions(tc) {
 		if ir.LoadedField(v) != r.recVersion {
 			continue
 		}
@@ -1427,11 +1575,31 @@ func (c *Ctx) noSuccessAfterGiveBack(r *lockRoles, rule string) {
 				return
 			}
 			n++
-			c.NoPath(rule, "an attempt that gave the token back reports failure", in, ir.Query{Fn: fn, From: in,
-				Target: func(x ssa.Instruction) bool {
-					ret, ok := x.(*ssa.Return)
-					return ok && ir.IsReturn(x) && possibleSuccessExit(fn, ret)
-				}}, "the attempt returns the local token and resets the flag (its failure epilogue) but can still report success (nil / true): the caller believes it holds the lock while it holds nothing")
+			target := func(x ssa.Instruction) bool {
+				ret, ok := x.(*ssa.Return)
+				return ok && ir.IsReturn(x) && possibleSuccessExit(fn, ret)
+			}
+			q := ir.Query{Fn: fn, From: in, Target: target}
+			if w, err := q.Find(); err == nil && w != nil {
+				// the epilogue runs under a test of the very value that is returned behind it (`if err != nil { give back }; return err`):
+				// the same question per path, starting with what is known where the token is given back
+				pq := ir.PathQuery{Fn: fn, From: in, FromFacts: true, Target: func(x ssa.Instruction, val *ir.Valuation) bool {
+					if !target(x) {
+						return false
+					}
+					if rs := fn.Signature.Results(); rs.Len() > 0 && ir.IsErrorType(rs.At(rs.Len()-1).Type()) {
+						if isNil, known := val.KnownIsNil(ir.ResultValue(x.(*ssa.Return), rs.Len()-1)); known && !isNil {
+							return false
+						}
+					}
+					return true
+				}}
+				if w2, err2 := pq.Find(); err2 == nil && w2 == nil {
+					c.Decide(rule, fn, "an attempt that gave the token back reports failure", in, true, "")
+					return
+				}
+			}
+			c.NoPath(rule, "an attempt that gave the token back reports failure", in, q, "the attempt returns the local token and resets the flag (its failure epilogue) but can still report success (nil / true): the caller believes it holds the lock while it holds nothing")
 		})
 	}
 	if n == 0 {
